@@ -87,15 +87,6 @@ mod proofs {
     }
     #[kani::proof]
     #[kani::unwind(6)]
-    fn arm_i64_to_dense_keeps_rows() {
-        let vals: [i8; N] = kani::any();
-        let mut data: Vec<i64> = vec![vals[0] as i64, vals[1] as i64, vals[2] as i64];
-        let out = arm_i64_to_dense(&mut data);
-        assert!(out.len() == N, "[len] one float per integer row");
-        for i in 0..N { assert!(out[i].to_bits() == (vals[i] as f64).to_bits(), "[promoted-in-place] row i holds the float of the integer of row i"); }
-    }
-    #[kani::proof]
-    #[kani::unwind(6)]
     fn arm_sparse_i64_to_sparse_keeps_rows() {
         let rows: [u64; N] = kani::any();
         let vals: [i8; N] = kani::any();
@@ -105,6 +96,21 @@ mod proofs {
         for i in 0..N { assert!(out[i].0 == rows[i] && out[i].1.to_bits() == (vals[i] as f64).to_bits(), "[row-index-kept] entry i keeps its row index and holds the float of its integer"); }
     }
 
+    // the whole (I64, Float) arm, with and without a gap before the float
+    #[kani::proof]
+    #[kani::unwind(6)]
+    fn arm_i64_gets_float_keeps_rows() {
+        let vals: [i8; 2] = kani::any();
+        let gap: bool = kani::any();
+        let value: f64 = kani::any();
+        let mut col = ColumnBuffer { data: ColumnData::I64(vec![vals[0] as i64, vals[1] as i64]) };
+        let row = if gap { 3u64 } else { 2u64 };
+        arm_i64_gets_float(&mut col, value, row);
+        for i in 0..2 { assert!(den(&col.data, i) == Cell::F((vals[i] as f64).to_bits()), "[promoted-in-place] an integer row holds the float of its integer after the promotion"); }
+        assert!(den(&col.data, row as usize) == Cell::F(value.to_bits()), "[float-at-its-row] the float is recorded at the table's current row");
+        if gap { assert!(den(&col.data, 2) == Cell::Null, "[gap-stays-null] the row that received no value stays NULL"); }
+        assert!(den(&col.data, row as usize + 1) == Cell::Null, "[nothing-after] no value appears after the current row");
+    }
     #[kani::proof]
     fn vx_canary() {
         let x: u8 = kani::any();
